@@ -135,7 +135,8 @@ func (h *httproto) Pack(m erpc.Message) (err error) {
 			return false
 		}
 		header.Set("Content-Encoding", "gzip")
-		header.Set("X-Content-Encoding", filter.Name())
+		// one line per filter, in pipe order: the receiver learns the whole pipe
+		header.Add("X-Content-Encoding", filter.Name())
 		return true
 	})
 	if err != nil {
@@ -216,9 +217,9 @@ func (h *httproto) packResponse(m erpc.Message, header http.Header, bb *utils.By
 		statBytes, _ := stat.MarshalJSON()
 		bb.Write(bizErrBytes)
 		bb.Write(crlfBytes)
-		if gzipName := header.Get("X-Content-Encoding"); gzipName != "" {
-			gz, _ := xfer.GetByName(gzipName)
-			statBytes, _ = gz.OnPack(statBytes)
+		if m.XferPipe().Len() > 0 {
+			// the status document goes through the whole pipe that the header lines announce
+			statBytes, _ = m.XferPipe().OnPack(statBytes)
 		}
 		header.Set("Content-Type", "application/json")
 		header.Set("Content-Length", strconv.Itoa(len(statBytes)))
